@@ -305,13 +305,14 @@ func modelFor(o *Oblig) string {
 // ---------- Go source generation ----------
 
 type gen struct {
-	L       *Loaded
-	m       *Model
-	o       *Oblig
-	pkg     *types.Package
-	imports map[string]string // path -> name
-	fail    string
-	stubs   map[string]bool
+	L        *Loaded
+	m        *Model
+	o        *Oblig
+	pkg      *types.Package
+	imports  map[string]string // path -> name
+	fail     string
+	stubs    map[string]bool
+	needBlen bool
 }
 
 func (g *gen) qual(p *types.Package) string {
@@ -618,6 +619,9 @@ func buildReplay(L *Loaded, o *Oblig, repo string) *Replay {
 	check := ""
 	if strings.HasPrefix(o.Class, "post") && fc != nil {
 		txt := strings.TrimPrefix(o.Clause, "ensures ")
+		for name := range g.L.Contracts.Specs {
+			replaySpecNames[name] = true
+		}
 		if goEvaluable(txt) {
 			expr := rewriteImplies(strings.ReplaceAll(txt, "#k", "__k"))
 			check = fmt.Sprintf("if !(%s) { done <- \"POSTCONDITION VIOLATED: %s\"; return }", expr, strings.ReplaceAll(txt, `"`, `'`))
@@ -643,6 +647,11 @@ func buildReplay(L *Loaded, o *Oblig, repo string) *Replay {
 	for _, r := range resNames {
 		use = append(use, "_ = "+r)
 	}
+	if strings.Contains(check, "blen(") {
+		g.needBlen = true
+		g.imports["reflect"] = "reflect"
+		g.imports["bytes"] = "bytes"
+	}
 	var sb strings.Builder
 	fmt.Fprintf(&sb, "package %s\n\nimport (\n", pk.Pkg.Name())
 	var ips []string
@@ -658,6 +667,10 @@ func buildReplay(L *Loaded, o *Oblig, repo string) *Replay {
 	sb.WriteString("func be32(s []byte, o int) uint32 { return uint32(be16(s, o))<<16 | uint32(be16(s, o+2)) }\n")
 	sb.WriteString("func be64(s []byte, o int) uint64 { return uint64(be32(s, o))<<32 | uint64(be32(s, o+4)) }\n")
 	sb.WriteString("func u8(s []byte, o int) uint8 { return s[o] }\n")
+	sb.WriteString("func bytes_eq(a []byte, ao int, b []byte, bo int, n int) bool {\n\tfor k := 0; k < n; k++ {\n\t\tif a[ao+k] != b[bo+k] {\n\t\t\treturn false\n\t\t}\n\t}\n\treturn true\n}\n")
+	if g.needBlen {
+		sb.WriteString("func blen(x interface{}) int {\n\tv := reflect.ValueOf(x)\n\tfor v.Kind() == reflect.Ptr {\n\t\tif v.IsNil() {\n\t\t\treturn 0\n\t\t}\n\t\tv = v.Elem()\n\t}\n\tif v.Type().String() != \"bytes.Buffer\" {\n\t\tv = v.FieldByName(\"Buffer\")\n\t}\n\tbb := v.Interface().(bytes.Buffer)\n\treturn (&bb).Len()\n}\n")
+	}
 	if g.stubs["msg"] {
 		sb.WriteString(stubMsgSrc)
 	}
@@ -692,9 +705,17 @@ func buildReplay(L *Loaded, o *Oblig, repo string) *Replay {
 	return rp
 }
 
+// replaySpecNames: user spec functions of the loaded contracts (not executable in a replay test)
+var replaySpecNames = map[string]bool{}
+
 func goEvaluable(txt string) bool {
-	for _, bad := range []string{"old(", "size(", "sum(", "fresh(", "typeis(", "bytes_eq(", "wf(", "pad8(", "ite("} {
+	for _, bad := range []string{"old(", "size(", "sum(", "fresh(", "typeis(", "sametype(", "allzero(", "wf(", "wfl(", "pad8(", "ite(", "bbyte(", "bbe16(", "bbe32(", "bbe64(", "bbytes_eq(", "sbytes_eq(", "bzero(", "allwf(", "allwfl("} {
 		if strings.Contains(txt, bad) {
+			return false
+		}
+	}
+	for name := range replaySpecNames {
+		if strings.Contains(txt, name+"(") {
 			return false
 		}
 	}
